@@ -30,6 +30,7 @@ CLAIMS = {
     "C01": mixed("PROVED for all inputs (unbounded dimension, arbitrary index sets): update_adaptive_combi / __refine_scheme / the query methods, symbolically executed from the "
                  "working tree, preserve the index-set invariant (entries>=lmin, old/active disjoint, backward neighbours old => downward closed, no active index with a forward "
                  "neighbour) for refinable and non-refinable requests; getCombiScheme on an adaptive object returns the scheme computed once for exactly old | active whatever lmin / lmax arguments are passed and changes nothing; Lean/Mathlib: for ANY finite index set the stencil coefficients of the grids dominating l sum to [l in I]. "
+                 "init_adaptive_combi_scheme also without its precondition: an invalid level range is refused and a refused request leaves the scheme untouched. "
                  "BOUNDED: initialisation, closed-form scheme, and the link get_coefficients_to_index_set <-> Lean coeff function (exhaustive small universes).",
                  "Initialisation (getGrids recursion) and get_coefficients_to_index_set are covered by the bounded layer only."),
     "C02": mixed("PROVED: the real 1-D trapezoidal grid (set_current_area, level_to_num_points_1d, points/weights) returns as many points as it announces, inside the sub-box, "
@@ -40,6 +41,7 @@ CLAIMS = {
                  "returned 1-D list is strictly ascending, contains both domain end points and consists exactly of the interval ends that pass the level test of that dimension; "
                  "get_subtraction_value for the level-independent coarsening versions 2 and 3 (relational product proofs, get_max_level abstract): the subtraction value depends only on the own level "
                  "entry and the level down to which points are kept grows with the component level; "
+                 "RefinementContainer.refine when the interval refuses to be split (floating-point resolution): the container is left untouched, so the 1-D point sets keep the domain end points in histories with a refused step; "
                  "Lean lemmas as C02. BOUNDED: the real dimension-wise strategy under an adversarial benefit oracle (d<=3, versions 2,3,6,7,8, "
                  "rebalancing, boundary on/off): sorted nested 1-D sets, coefficient sum 1, reproduction at grid points after every refinement step."),
     "C04": bounded("No contract within reach decides 'every function of the initial space stays exact' (needs approximation theory through numpy quadrature/interpn). "
@@ -58,7 +60,7 @@ CLAIMS = {
                  "receiver unchanged, never raises; the selection kernel returns the FIRST object at/after the cursor whose benefit reaches the tolerance and advances the cursor "
                  "(any container size); benefits non-negative; refinement_postprocessing (1-2 dimensions, any container sizes, rebalancing on or off, removal / sorting / rebalancing abstract): "
                  "afterwards every interval's coarsening level == lmax[d] - its highest end-point level, never negative, lmax[d] >= deepest level (update_coarsening_values and "
-                 "RefinementContainer.update_values proved, raise_lmax assumed to add its argument to lmax[d]). BOUNDED: whole-container tiling, tree level rule incl. rebalancing, coarsening/lmax bookkeeping, exact split set per step."),
+                 "RefinementContainer.update_values proved, raise_lmax assumed to add its argument to lmax[d]); RefinementContainer.refine with an interval that refuses to be split leaves the container untouched (post_raise). BOUNDED: whole-container tiling, tree level rule incl. rebalancing, coarsening/lmax bookkeeping, exact split set per step."),
     "C07": mixed("PROVED for d in {1,2,3} with symbolic coordinates: split_area_single_dim / split_area_arbitrary_dim children lie inside the parent, have pairwise disjoint "
                  "interiors and volumes summing to the parent's; refine() for d in {1,2} under all three policies (split-then-extend, automatic extend/split by parent benefits, "
                  "splitSingleDim by twin errors): the outcome is either one area with the same box and coarsening >= 0 or 2^k areas tiling the parent with unchanged coarsening, never an exception; "
@@ -91,6 +93,7 @@ CLAIMS = {
                  "rule, never refines after it, appends exactly one history entry per evaluation recording that evaluation (ghost counters on abstract step contracts); Integration.get_global_error_estimate (result vectors of length 1..3, norms 1/2/inf): the reported error is the normalised "
                  "norm of the absolute deviation exactly for the zero reference and of the component-wise relative deviation for every other reference, however small; the default local error estimators of both adaptive strategies (vectors of length 1..3, norms 1/2/inf) return the normalised "
                  "norm of absolute values and are never negative; the reported point count is the number of points in the integrand's evaluation cache (chain get_total_num_points -> get_distinct_points -> get_f_dict_size; that the cache holds exactly the distinct evaluated points is C12's contract). "
+                 "performSpatiallyAdaptiv (entry point): the driver loop is entered with empty history arrays after exactly one initialisation, the options and the reference of the request are those of the run, and a request refused by the argument validation keeps the history arrays of the previous run. "
                  "BOUNDED: all strategies with reference solution: reported error == normalised deviation in the chosen norm, point count == distinct evaluations, no negative errors."),
     "C14": bounded("BOUNDED (deciding): stop-and-continue at every interruption index, save/restore round trip (dill) vs an uninterrupted run. PROVED support: the driver loop is "
                    "re-entrant for an arbitrary existing history (C13 contract); the selection kernel a resumed run uses is the exact comparison benefit >= tolerance (any container size), "
@@ -99,6 +102,7 @@ CLAIMS = {
                  "the per-interval moment formula, and (ghost Sum through the accumulation loop, lemmas sum-update / total-mass) add up to the probability of [x_0, x_{n-1}], i.e. to 1 "
                  "when the grid spans the support and interval probabilities are additive (A-DIST-ADD); lemmas: uniform => trapezoidal/(b-a); E[cf+e]=cE[f]+e, Var[cf+e]=c^2 Var[f], constant model; variance never negative (1..3 outputs); get_middle_weighted with an abstract strictly increasing cdf and its inverse ppf returns a point strictly inside the interval "
                  "that halves its probability. "
+                 "_set_nodes_weights_evals (node-based statistics; any leftovers of earlier or aborted queries in the operation, abstract pure model): nodes, weights and model values have one length and f_evals[i] is the model value at nodes[i]. "
                  "BOUNDED: real distributions (uniform/triangle/normal), weighted midpoint with inexact ppf, sums to 1 incl. infinite ends and boundary-off renormalisation, the real UQ pipeline."),
     "C16": mixed("PROVED for every dimension with symbolic coordinates: calculate_R_value_analytically returns the product of the 1-D L2 products of the two hat functions (Gram entry), 0 for non-adjacent; "
                  "lemma: the closed forms are the integrals; hat_function_non_symmetric (standard basis) and hat_function (uniform grid) return the product of the 1-D hat values for every dimension; "
@@ -117,6 +121,7 @@ CLAIMS = {
                    "total == number of classified samples, percentage == 1 - wrong/total, and refuses only when the two lengths differ; Classification.test_data / __call__ (scaling, label split, concatenation and arg-max classification abstract): "
                    "the classes of earlier data are never changed, new classes are appended in order and stay aligned with the recorded tested samples, unlabelled samples are set aside, "
                    "the summary covers exactly the newly tested samples. "
+                   "_process_performed_classification (2 and 3 classes, any leftovers of earlier learning attempts in the object): the estimator table holds exactly one estimator per class of this learning call in class order, held-out data are classified with them. "
                    "BOUNDED (deciding): synthetic labelled sets, standard and dimension-wise learning, sequences of __call__/test_data with data inside/partly/entirely outside: arg-max clause "
                    "against independently evaluated per-class densities, out-of-range removal, summary consistency, history stability."),
     "C20": bounded("PROVED kernel (any number of component grids): all six coefficient-optimisation variants (error per grid, least squares on the validation set, Garcke's linear "
